@@ -253,7 +253,9 @@ theorem C08F_parsed_filter (σ : Schema) (path : GoString) (values : GoMap (List
 (`c08_reparseFd labelDec (filterDec nc) values`: what simple_url.go computes from the values
 map): nothing is assumed of the codec, and nothing of the filter. What remains besides the
 hypotheses of C08 on the schema and the values map is `hbrace` (a label whose JSON body
-starts with `{` is re-read as a filter object: `C08_label_brace_counterexample`). -/
+starts with `{`; without the rewrite `String()` does on it, it would be re-read as a filter
+object: `C08_label_brace_counterexample`). `C08G_reparse_real` (Props/C08G.lean) is this
+theorem without `hbrace`. -/
 theorem C08F_reparse_real (nc : GoString → GoString) (hnc : NumCanonLaws nc)
     (σ : Schema) (path : GoString) (values : GoMap (List GoString)) (u : URL)
     (hσ : Inv σ) (hn : NamesOK σ)
